@@ -12,6 +12,7 @@ CFG = {
     "exhaustive": {"quick": False, "thorough": False},
     "exhaustive_note": "all UFOs and glifs of the repository's testdata are run; the generated part is sampled",
     "timeout": {"quick": 600, "thorough": 7200},
+    "search_timeout": 90,
     "trusted_base": COMMON_TRUST + [
         "the independent renderer of harness/src/c04.rs (it decides what a tree / glif document 'says'); fontinfo.plist key/value pairs come from plist::to_value(&FontInfo) (norad's serde table, checked against the specification by C05)",
         "format 1/2 conversion of font info, groups and kerning at the first load is not modelled here (C14/C15/C10): for legacy trees only the fixed point after the first load is checked",
